@@ -13,6 +13,21 @@ def firstOccs [DecidableEq α] : List α → List α
   | [] => []
   | x :: xs => x :: (firstOccs xs).filter (fun y => decide (y ≠ x))
 
+/-- does the item `p.1` with predecessor `p.2` (`none` for the first item) start a new run? `eq` is
+applied as `eq current previous`. -/
+def startsRun (eq : α → α → Bool) (p : α × Option α) : Bool :=
+  match p.2 with
+  | none => true
+  | some q => !eq p.1 q
+
+/-- The first item of every contiguous run (`xslices.Compact*`): an item is kept iff it is the first
+one or is not `eq` to its predecessor. -/
+def firstOfRuns (eq : α → α → Bool) (l : List α) : List α :=
+  ((l.zip (none :: l.map some)).filter (startsRun eq)).map Prod.fst
+
+/-- `a` and `b` are equivalent under `less`: neither is less than the other -/
+def Equiv (less : α → α → Bool) (a b : α) : Bool := !less a b && !less b a
+
 /-- `less` is a strict weak order — the rules of `sort.Interface.Less`: irreflexive, transitive,
 and incomparability is transitive (stated as negative transitivity). -/
 structure StrictWeak (less : α → α → Bool) : Prop where
